@@ -680,11 +680,53 @@ func (l *lane) judge(id, op, point string, j int, p *prepared, cl *s3c.Client, a
 		if ke.Old.Wid == ke.New.Wid || strings.HasSuffix(ke.Key, "/") || p.lock {
 			continue
 		}
+		// versioned bucket: an attribute change of the current version acknowledged after the restart must be what its
+		// version id shows once a later upload has archived it (leftovers of the interrupted operation in the version
+		// store are no substitute for the object as it is now)
+		archVid, archWid := "", 0
+		if p.versioned {
+			// (only on a current object that is whole: an inconsistent one was reported above)
+			if h := cl.GetObject(b, ke.Key); h.OK() {
+				if o := l.ws.Judge(h, false); o.Wid > 0 && o.Torn == "" {
+					if vid := h.Header.Get("X-Amz-Version-Id"); vid != "" && vid != "null" {
+						tb := s3c.TaggingXML(map[string]string{"followup": "after-restart"})
+						if tr := cl.Sub("PUT", b, ke.Key, "tagging=", tb, "Content-MD5", s3c.MD5B64(tb)); tr.OK() {
+							archVid, archWid = vid, o.Wid
+						}
+					}
+				}
+			}
+		}
 		cw := l.ws.Mk(false)
 		pr := cl.PutObject(b, ke.Key, cw.Body, cw.Hdr()...)
 		if !pr.OK() {
 			viol("later-put-fails", ke.Key+": "+pr.String())
 			continue
+		}
+		if archVid != "" {
+			gv := cl.GetObjectV(b, ke.Key, archVid)
+			if o := l.ws.Judge(gv, false); o.Wid != archWid || archWid <= 0 {
+				viol("version-archived-by-later-put-unreadable", fmt.Sprintf("%s?versionId=%s: %s %s (want write %d)", ke.Key, archVid, gv, o.Torn, archWid))
+			} else if nv := pr.Header.Get("X-Amz-Version-Id"); nv != "" && nv != archVid {
+				// (the gateway serves tags of the current version only: the newest version is deleted by id, which
+				// re-exposes the archived one, and put again afterwards)
+				if dv := cl.DeleteObjectV(b, ke.Key, nv); dv.Status == 204 || dv.Status == 200 {
+					g2 := cl.GetObject(b, ke.Key)
+					tg := cl.Sub("GET", b, ke.Key, "tagging=", nil)
+					tm, _ := s3c.ParseTagging(tg.Body)
+					if o2 := l.ws.Judge(g2, false); o2.Wid != archWid {
+						viol("deleting-the-later-put-does-not-reexpose-the-version-before-it", fmt.Sprintf("%s: %s holds write %d %s (want write %d)", ke.Key, g2, o2.Wid, o2.Torn, archWid))
+					} else if !tg.OK() || tm["followup"] != "after-restart" || len(tm) != 1 {
+						viol("version-archived-by-later-put-without-its-acknowledged-tags", fmt.Sprintf("%s: tags put after the restart {followup=after-restart}; once archived by the later put and re-exposed the version shows %s %v", ke.Key, tg, tm))
+					}
+					if pr = cl.PutObject(b, ke.Key, cw.Body, cw.Hdr()...); !pr.OK() {
+						viol("later-put-fails", ke.Key+": "+pr.String())
+						continue
+					}
+				} else {
+					viol("later-delete-fails", ke.Key+"?versionId="+nv+": "+dv.String())
+				}
+			}
 		}
 		if o := l.ws.Judge(cl.GetObject(b, ke.Key), false); o.Wid != cw.ID {
 			viol("later-put-not-readable", fmt.Sprintf("%s: wrote %d, read %d %s", ke.Key, cw.ID, o.Wid, o.Torn))
